@@ -1,6 +1,7 @@
 mod common;
 mod c16;
 mod c13;
+mod c09;
 
 fn main() {
     let argv: Vec<String> = std::env::args().collect();
@@ -9,6 +10,8 @@ fn main() {
     match argv[1].as_str() {
         "c16" => c16::run(&a),
         "c13" => c13::run(&a),
+        "c09" => c09::run(&a),
+        "c10" => c09::run_c10(&a),
         x => { eprintln!("unknown subcommand {x}"); std::process::exit(2); }
     }
 }
